@@ -45,23 +45,29 @@ theorem isWide_chr (P : Params) (c : Cell) (h : isWide P c = true) :
   · rename_i ch hk; exact ⟨ch, hk, by simpa using h⟩
   · cases h
 
-/-- assumptions on the front row after the first pass and its marks -/
-structure RowOk (P : Params) (W : Nat) (new : Nat → Cell) (mk : Nat → Mark) : Prop where
+/-- Assumptions on the front row after the first pass and its marks.  `free k`: the content of cell
+`k` after the second pass does not matter (it lies in the area of an image that the image pass is
+going to erase and draw). -/
+structure RowOk (P : Params) (W : Nat) (new : Nat → Cell) (mk : Nat → Mark) (free : Nat → Prop) : Prop where
   /-- a zero-width cell is the right neighbour of a painted wide character -/
-  nul : ∀ k ch, k < W → (new k).kind = .chr ch → P.width ch = 0 →
-    ∃ k', k' + 1 = k ∧ isWide P (new k') = true ∧ mk k' ≠ .ignored
+  nul : ∀ k ch, k < W → mk k ≠ .ignored → ¬ free k → (new k).kind = .chr ch → P.width ch = 0 →
+    ∃ k', k' + 1 = k ∧ isWide P (new k') = true ∧ mk k' ≠ .ignored ∧ ¬ free k'
   /-- a painted wide character is followed by a zero-width cell -/
-  wide : ∀ k, k < W → isWide P (new k) = true → mk k ≠ .ignored →
-    k + 1 < W ∧ (∃ ch, (new (k + 1)).kind = .chr ch ∧ P.width ch = 0) ∧ mk (k + 1) ≠ .ignored
+  wide : ∀ k, k < W → isWide P (new k) = true → mk k ≠ .ignored → ¬ free k →
+    k + 1 < W ∧ (∃ ch, (new (k + 1)).kind = .chr ch ∧ P.width ch = 0) ∧ mk (k + 1) ≠ .ignored ∧ ¬ free (k + 1)
   /-- image cells are ignored by the second pass -/
   img : ∀ k, k < W → (∀ ch, (new k).kind ≠ .chr ch) → mk k = .ignored
+  /-- a wide character in a free cell has its right half in a free cell -/
+  fwide : ∀ k, k < W → free k → isWide P (new k) = true → k + 1 < W ∧ free (k + 1)
+  /-- free cells are marked -/
+  fmark : ∀ k, free k → mk k ≠ .empty
 
-structure RowInv (P : Params) (H W r : Nat) (old new : Nat → Cell) (mk : Nat → Mark)
+structure RowInv (P : Params) (H W r : Nat) (old new : Nat → Cell) (mk : Nat → Mark) (free : Nat → Prop)
     (col : Nat) (t : Tr) (s : Screen) : Prop where
   wf : WF P s
   cur : t.cur = s.cur ∨ ¬ (t.cur.1 < H ∧ t.cur.2 < W)
   face : ∀ f, t.face = some f → s.face = f
-  done : ∀ k, k < col → k < W → mk k ≠ .ignored → s.grid r k = dispN P (new k)
+  done : ∀ k, k < col → k < W → mk k ≠ .ignored → ¬ free k → s.grid r k = dispN P (new k)
   todo : ∀ k, col < k → k < W → mk k = .empty → s.grid r k = dispN P (old k)
   here : col < W → mk col = .empty →
     s.grid r col = dispN P (old col) ∨
@@ -105,7 +111,7 @@ theorem pre_ok (P : Params) (H W : Nat) (t : Tr) (s : Screen) (f r c : Nat) (hr 
 
 theorem exec_erase (P : Params) (s : Screen) (n : Nat) (hn : 1 ≤ n) :
     let s' := exec P s (.erase n)
-    s'.grid s.cur.1 = over (s.grid s.cur.1) s.cur.2 (s.cur.2 + n) (fun _ => .glyph 32 s.face) ∧
+    s'.grid s.cur.1 = over (s.grid s.cur.1) s.cur.2 (s.cur.2 + n) (fun _ => blankOf P s.face) ∧
     (∀ r', r' ≠ s.cur.1 → s'.grid r' = s.grid r') ∧
     s'.place = s.place ∧ s'.cur = s.cur ∧ s'.face = s.face := by
   have hm : n ≠ 0 := by omega
@@ -191,72 +197,83 @@ theorem exec_blanks (P : Params) (hP : ParamsOk P) (n : Nat) (s : Screen) :
 
 /-! ### one paint step preserves the row invariant -/
 
-/-- the cell left of a painted cell is never orphaned unless it is ignored -/
-theorem left_safe (P : Params) (H W r : Nat) (old new : Nat → Cell) (mk : Nat → Mark) (col : Nat) (t : Tr)
-    (s : Screen) (hok : RowOk P W new mk) (hinv : RowInv P H W r old new mk col t s) (hcW : col < W)
+/-- the cell left of a painted live cell is never orphaned unless it is ignored or free -/
+theorem left_safe (P : Params) (H W r : Nat) (old new : Nat → Cell) (mk : Nat → Mark) (free : Nat → Prop)
+    (col : Nat) (t : Tr)
+    (s : Screen) (hok : RowOk P W new mk free) (hinv : RowInv P H W r old new mk free col t s) (hcW : col < W)
     (ch : Nat) (hk : (new col).kind = .chr ch) (hw : P.width ch ≠ 0) :
-    s.grid r col = .cont → ∀ c', c' + 1 = col → mk c' = .ignored := by
+    s.grid r col = .cont → ∀ c', c' + 1 = col → mk c' = .ignored ∨ free c' := by
   intro hc c' hc'
   subst hc'
   apply Classical.byContradiction
   intro hni
+  have hni1 : mk c' ≠ .ignored := fun h => hni (Or.inl h)
+  have hni2 : ¬ free c' := fun h => hni (Or.inr h)
   have hwg : WideGlyph P (s.grid r c') := ((hinv.wf r).2 c').1 hc
-  rw [hinv.done c' (by omega) (by omega) hni] at hwg
+  rw [hinv.done c' (by omega) (by omega) hni1 hni2] at hwg
   have hwide := dispN_wide P _ hwg
-  obtain ⟨_, ⟨ch', hk', hw'⟩, _⟩ := hok.wide c' (by omega) hwide hni
+  obtain ⟨_, ⟨ch', hk', hw'⟩, _⟩ := hok.wide c' (by omega) hwide hni1 hni2
   rw [hk] at hk'
   cases hk'
   exact hw hw'
 
 /-- the cell right of a painted range is a character of positive width unless ignored or damaged -/
-theorem right_live (P : Params) (W : Nat) (new : Nat → Cell) (mk : Nat → Mark) (hok : RowOk P W new mk)
-    (b : Nat) (hb : b < W) (hm : mk b = .empty) (b' : Nat) (hb' : b' + 1 = b) (hnw : isWide P (new b') = false) :
+theorem right_live (P : Params) (W : Nat) (new : Nat → Cell) (mk : Nat → Mark) (free : Nat → Prop)
+    (hok : RowOk P W new mk free)
+    (b : Nat) (hb : b < W) (hm : mk b = .empty) (b' : Nat) (hb' : b' + 1 = b)
+    (hnw : isWide P (new b') = false ∨ free b') :
     ∃ ch, (new b).kind = .chr ch ∧ P.width ch ≠ 0 := by
+  have hnf : ¬ free b := fun h => hok.fmark b h hm
   by_cases hc : ∃ ch, (new b).kind = .chr ch
   · obtain ⟨ch, hk⟩ := hc
     refine ⟨ch, hk, ?_⟩
     intro hw
-    obtain ⟨k', hk1, hk2, _⟩ := hok.nul b ch hb hk hw
+    obtain ⟨k', hk1, hk2, _, hk4⟩ := hok.nul b ch hb (by rw [hm]; simp) hnf hk hw
     have : k' = b' := by omega
     subst this
-    rw [hk2] at hnw
-    cases hnw
+    rcases hnw with h | h
+    · rw [hk2] at h; cases h
+    · exact hk4 h
   · have := hok.img b hb (fun ch h => hc ⟨ch, h⟩)
     rw [hm] at this
     cases this
 
-theorem over_step (P : Params) (H W r : Nat) (old new : Nat → Cell) (mk : Nat → Mark) (col : Nat) (t : Tr)
-    (s : Screen) (hok : RowOk P W new mk) (hinv : RowInv P H W r old new mk col t s)
+theorem over_step (P : Params) (H W r : Nat) (old new : Nat → Cell) (mk : Nat → Mark) (free : Nat → Prop)
+    (col : Nat) (t : Tr)
+    (s : Screen) (hok : RowOk P W new mk free) (hinv : RowInv P H W r old new mk free col t s)
     (b : Nat) (val : Nat → SCell) (hcb : col < b) (hbW : b ≤ W)
     (s2 : Screen) (hg : s2.grid r = over (s.grid r) col b val)
     (hother : ∀ r', r' ≠ r → s2.grid r' = s.grid r')
-    (hval : ∀ k, col ≤ k → k < b → mk k ≠ .ignored ∧ val k = dispN P (new k))
+    (hval : ∀ k, col ≤ k → k < b → (mk k = .ignored → free k) ∧ (¬ free k → val k = dispN P (new k)))
     (hv0 : val col ≠ .cont)
     (hv : ∀ k, col ≤ k → k + 1 < b → (val (k + 1) = .cont ↔ WideGlyph P (val k)))
     (hvl : ¬ WideGlyph P (val (b - 1)))
-    (hleft : s.grid r col = .cont → ∀ c', c' + 1 = col → mk c' = .ignored)
-    (hnw : ∀ b', b' + 1 = b → isWide P (new b') = false)
+    (hleft : s.grid r col = .cont → ∀ c', c' + 1 = col → mk c' = .ignored ∨ free c')
+    (hnw : ∀ b', b' + 1 = b → isWide P (new b') = false ∨ free b')
     (t2 : Tr) (hc2 : t2.cur = s2.cur ∨ ¬ (t2.cur.1 < H ∧ t2.cur.2 < W))
     (hf2 : ∀ f, t2.face = some f → s2.face = f) :
-    RowInv P H W r old new mk b t2 s2 ∧
-    (∀ k, mk k = .ignored → s.grid r k ≠ .cont → ¬ WideGlyph P (s.grid r k) → s2.grid r k = s.grid r k) := by
+    RowInv P H W r old new mk free b t2 s2 ∧
+    (∀ k, mk k = .ignored → ¬ free k → s.grid r k ≠ .cont → ¬ WideGlyph P (s.grid r k) →
+      s2.grid r k = s.grid r k) := by
   refine ⟨⟨?_, hc2, hf2, ?_, ?_, ?_⟩, ?_⟩
   · intro r'
     by_cases hr : r' = r
     · subst hr; rw [hg]; exact over_wf P _ _ _ _ hcb (hinv.wf r') hv0 hv hvl
     · rw [hother r' hr]; exact hinv.wf r'
-  · intro k hk hkW hm
+  · intro k hk hkW hm hfr
     rw [hg]
     by_cases hkc : col ≤ k
     · have : col ≤ k ∧ k < b := ⟨hkc, hk⟩
       simp only [over, this, and_self, if_true]
-      exact (hval k hkc hk).2
+      exact (hval k hkc hk).2 hfr
     · have h1 : ¬ (col ≤ k ∧ k < b) := by omega
       have h3 : ¬ (k = b) := by omega
       simp only [over, h1, h3, false_and, if_false]
       by_cases h2 : k + 1 = col ∧ s.grid r col = .cont
-      · exact absurd (hleft h2.2 k h2.1) hm
-      · rw [if_neg h2]; exact hinv.done k (by omega) hkW hm
+      · rcases hleft h2.2 k h2.1 with h | h
+        · exact absurd h hm
+        · exact absurd h hfr
+      · rw [if_neg h2]; exact hinv.done k (by omega) hkW hm hfr
   · intro k hk hkW hm
     rw [hg]
     have h1 : ¬ (col ≤ k ∧ k < b) := by omega
@@ -276,7 +293,7 @@ theorem over_step (P : Params) (H W r : Nat) (old new : Nat → Cell) (mk : Nat 
       rw [htodo] at hc
       obtain ⟨cho, hko, hwo⟩ := dispN_cont P _ hc
       obtain ⟨b', hb'⟩ : ∃ b', b' + 1 = b := ⟨b - 1, by omega⟩
-      obtain ⟨chn, hkn, hwn⟩ := right_live P W new mk hok b hb hm b' hb' (hnw b' hb')
+      obtain ⟨chn, hkn, hwn⟩ := right_live P W new mk free hok b hb hm b' hb' (hnw b' hb')
       refine ⟨?_, chn, hkn, hwn⟩
       intro heq
       rw [heq, hkn] at hko
@@ -285,9 +302,9 @@ theorem over_step (P : Params) (H W r : Nat) (old new : Nat → Cell) (mk : Nat 
     · left
       simp only [hc, if_false]
       exact htodo
-  · intro k hm hnc hnwg
+  · intro k hm hfr hnc hnwg
     rw [hg]
-    have h1 : ¬ (col ≤ k ∧ k < b) := fun h => (hval k h.1 h.2).1 hm
+    have h1 : ¬ (col ≤ k ∧ k < b) := fun h => hfr ((hval k h.1 h.2).1 hm)
     simp only [over, h1, if_false]
     by_cases h2 : k + 1 = col ∧ s.grid r col = .cont
     · exfalso
@@ -299,27 +316,30 @@ theorem over_step (P : Params) (H W r : Nat) (old new : Nat → Cell) (mk : Nat 
       · exfalso; apply hnc; rw [h3.1]; exact h3.2
       · rw [if_neg h3]
 
-
 /-- result of painting row `r` from screen `s` to screen `s'` -/
-structure RowDone (P : Params) (H W r : Nat) (new : Nat → Cell) (mk : Nat → Mark) (t : Tr) (s s' : Screen) : Prop where
+structure RowDone (P : Params) (H W r : Nat) (new : Nat → Cell) (mk : Nat → Mark) (free : Nat → Prop) (t : Tr)
+    (s s' : Screen) : Prop where
   wf : WF P s'
   cur : t.cur = s'.cur ∨ ¬ (t.cur.1 < H ∧ t.cur.2 < W)
   face : ∀ f, t.face = some f → s'.face = f
-  done : ∀ k, k < W → mk k ≠ .ignored → s'.grid r k = dispN P (new k)
+  done : ∀ k, k < W → mk k ≠ .ignored → ¬ free k → s'.grid r k = dispN P (new k)
   other : ∀ r', r' ≠ r → s'.grid r' = s.grid r'
   place : s'.place = s.place
-  ign : ∀ k, mk k = .ignored → s.grid r k ≠ .cont → ¬ WideGlyph P (s.grid r k) → s'.grid r k = s.grid r k
+  ign : ∀ k, mk k = .ignored → ¬ free k → s.grid r k ≠ .cont → ¬ WideGlyph P (s.grid r k) →
+    s'.grid r k = s.grid r k
 
-theorem RowDone.after_step {P : Params} {H W r : Nat} {new : Nat → Cell} {mk : Nat → Mark} {t : Tr} {s s2 s' : Screen}
-    (hd : RowDone P H W r new mk t s2 s')
+theorem RowDone.after_step {P : Params} {H W r : Nat} {new : Nat → Cell} {mk : Nat → Mark} {free : Nat → Prop}
+    {t : Tr} {s s2 s' : Screen}
+    (hd : RowDone P H W r new mk free t s2 s')
     (hother : ∀ r', r' ≠ r → s2.grid r' = s.grid r') (hplace : s2.place = s.place)
-    (hign : ∀ k, mk k = .ignored → s.grid r k ≠ .cont → ¬ WideGlyph P (s.grid r k) → s2.grid r k = s.grid r k) :
-    RowDone P H W r new mk t s s' := by
+    (hign : ∀ k, mk k = .ignored → ¬ free k → s.grid r k ≠ .cont → ¬ WideGlyph P (s.grid r k) →
+      s2.grid r k = s.grid r k) :
+    RowDone P H W r new mk free t s s' := by
   refine ⟨hd.wf, hd.cur, hd.face, hd.done, ?_, by rw [hd.place, hplace], ?_⟩
   · intro r' h; rw [hd.other r' h, hother r' h]
-  · intro k hm h1 h2
-    have e := hign k hm h1 h2
-    rw [hd.ign k hm (by rw [e]; exact h1) (by rw [e]; exact h2), e]
+  · intro k hm hfr h1 h2
+    have e := hign k hm hfr h1 h2
+    rw [hd.ign k hm hfr (by rw [e]; exact h1) (by rw [e]; exact h2), e]
 
 theorem not_skip_live {mk : Nat → Mark} {old new : Nat → Cell} {col : Nat}
     (h : ¬(mk col ≠ Mark.damaged ∧ (mk col = Mark.ignored ∨ old col = new col))) : mk col ≠ .ignored := by
@@ -346,28 +366,38 @@ theorem not_wide_glyph (P : Params) (ch f : Nat) (h : P.width ch < 2) : ¬ WideG
   cases he
   omega
 
-theorem skip_inv (P : Params) (H W r : Nat) (old new : Nat → Cell) (mk : Nat → Mark) (col : Nat) (t : Tr)
-    (s : Screen) (hinv : RowInv P H W r old new mk col t s)
-    (hcol : mk col ≠ .ignored → s.grid r col = dispN P (new col)) :
-    RowInv P H W r old new mk (col + 1) t s := by
+theorem blankOf_ne_cont (P : Params) (f : Nat) : blankOf P f ≠ .cont := by
+  unfold blankOf; split <;> simp
+
+theorem blankOf_not_wide (P : Params) (hP : ParamsOk P) (f : Nat) : ¬ WideGlyph P (blankOf P f) := by
+  unfold blankOf
+  split
+  · exact not_wide_glyph P 32 f (by rw [hP.sp]; omega)
+  · rintro ⟨ch, f', he, _⟩; cases he
+
+theorem skip_inv (P : Params) (H W r : Nat) (old new : Nat → Cell) (mk : Nat → Mark) (free : Nat → Prop)
+    (col : Nat) (t : Tr)
+    (s : Screen) (hinv : RowInv P H W r old new mk free col t s)
+    (hcol : mk col ≠ .ignored → ¬ free col → s.grid r col = dispN P (new col)) :
+    RowInv P H W r old new mk free (col + 1) t s := by
   refine ⟨hinv.wf, hinv.cur, hinv.face, ?_, ?_, ?_⟩
-  · intro k hk hkW hm
+  · intro k hk hkW hm hfr
     by_cases h : k = col
-    · subst h; exact hcol hm
-    · exact hinv.done k (by omega) hkW hm
+    · subst h; exact hcol hm hfr
+    · exact hinv.done k (by omega) hkW hm hfr
   · intro k hk hkW hm; exact hinv.todo k (by omega) hkW hm
   · intro hW hm; exact Or.inl (hinv.todo (col + 1) (by omega) hW hm)
 
 theorem paintRow_correct (P : Params) (hP : ParamsOk P) (H W r : Nat) (hr : r < H) (old new : Nat → Cell)
-    (mk : Nat → Mark) (hok : RowOk P W new mk) (col : Nat) (t : Tr) (s : Screen)
-    (hinv : RowInv P H W r old new mk col t s) :
-    RowDone P H W r new mk (paintRow P old new mk W r col t).2 s
+    (mk : Nat → Mark) (free : Nat → Prop) (hok : RowOk P W new mk free) (col : Nat) (t : Tr) (s : Screen)
+    (hinv : RowInv P H W r old new mk free col t s) :
+    RowDone P H W r new mk free (paintRow P old new mk W r col t).2 s
       (execAll P s (paintRow P old new mk W r col t).1) := by
   fun_induction paintRow P old new mk W r col t generalizing s with
   | case1 col t h hskip ih =>
     apply ih s
-    apply skip_inv _ _ _ _ _ _ _ _ _ _ hinv
-    intro hm
+    apply skip_inv _ _ _ _ _ _ _ _ _ _ _ hinv
+    intro hm _
     have he : mk col = .empty := by
       cases hmc : mk col
       · rfl
@@ -380,11 +410,11 @@ theorem paintRow_correct (P : Params) (hP : ParamsOk P) (H W r : Nat) (hr : r < 
       · exact absurd ho h2
   | case2 col t h hskip ch hk hw ih =>
     apply ih s
-    apply skip_inv _ _ _ _ _ _ _ _ _ _ hinv
-    intro _
-    obtain ⟨k', hk1, hk2, hk3⟩ := hok.nul col ch h hk hw
+    apply skip_inv _ _ _ _ _ _ _ _ _ _ _ hinv
+    intro hm hfr
+    obtain ⟨k', hk1, hk2, hk3, hk4⟩ := hok.nul col ch h hm hfr hk hw
     subst hk1
-    have hg := hinv.done k' (by omega) (by omega) hk3
+    have hg := hinv.done k' (by omega) (by omega) hk3 hk4
     have hwg : WideGlyph P (s.grid r k') := by rw [hg]; exact isWide_dispN P _ hk2
     rw [((hinv.wf r).2 k').2 hwg, dispN_nul P _ ch hk hw]
   | case3 col t h hskip f pre rep hrep q hk hw ih =>
@@ -402,19 +432,21 @@ theorem paintRow_correct (P : Params) (hP : ParamsOk P) (H W r : Nat) (hr : r < 
     obtain ⟨e1, e2, e3, e4, e5⟩ := exec_erase P (execAll P s pre) rep (by simp only [rep]; omega)
     rw [p3] at e1 e2
     simp only [p1, p4] at e1 e2
-    have hinv1 : RowInv P H W r old new mk col t s := hinv
-    obtain ⟨i2, ign2⟩ := over_step P H W r old new mk col t s hok hinv (col + rep) (fun _ => .glyph 32 f)
+    have hbl : blankOf P f = .glyph 32 f := by simp [blankOf, hrep.2]
+    rw [hbl] at e1
+    obtain ⟨i2, ign2⟩ := over_step P H W r old new mk free col t s hok hinv (col + rep) (fun _ => .glyph 32 f)
       (by simp only [rep]; omega) hbW (exec P (execAll P s pre) (.erase rep)) e1 e2
-      (fun k h1 h2 => ⟨(hnew k h1 h2).2, by rw [(hnew k h1 h2).1, dispN_chr P _ 32 hk hw]⟩)
+      (fun k h1 h2 => ⟨fun hi => absurd hi (hnew k h1 h2).2,
+        fun _ => by rw [(hnew k h1 h2).1, dispN_chr P _ 32 hk hw]⟩)
       (by simp) (fun k _ _ => by
         constructor
         · intro hc; cases hc
         · intro hc; exact absurd hc (not_wide_glyph P 32 f (by rw [hP.sp]; omega)))
       (not_wide_glyph P 32 f (by rw [hP.sp]; omega))
-      (left_safe P H W r old new mk col t s hok hinv h 32 hk hw)
-      (fun b' hb' => by
+      (left_safe P H W r old new mk free col t s hok hinv h 32 hk hw)
+      (fun b' hb' => Or.inl (by
         rw [(hnew b' (by omega) (by omega)).1]
-        simp [isWide, hk, hP.sp])
+        simp [isWide, hk, hP.sp]))
       { cur := (r, col), face := some f } (Or.inl (by rw [e4, p3])) (fun f' hf' => by simp at hf'; rw [e5, p4, hf'])
     have := ih _ i2
     simp only [execAll_append, execAll_cons, execAll_nil]
@@ -436,19 +468,20 @@ theorem paintRow_correct (P : Params) (hP : ParamsOk P) (H W r : Nat) (hr : r < 
     rw [← hrep1] at e1 e2 e3 e4 e5
     rw [p3] at e1 e2 e4
     simp only [p1, p4] at e1 e2
-    obtain ⟨i2, ign2⟩ := over_step P H W r old new mk col t s hok hinv (col + rep) (fun _ => .glyph 32 f)
+    obtain ⟨i2, ign2⟩ := over_step P H W r old new mk free col t s hok hinv (col + rep) (fun _ => .glyph 32 f)
       (by simp only [rep]; omega) hbW (execAll P (execAll P s pre) (List.replicate rep (.char 32))) e1
       e2
-      (fun k h1 h2 => ⟨(hnew k h1 h2).2, by rw [(hnew k h1 h2).1, dispN_chr P _ 32 hk hw]⟩)
+      (fun k h1 h2 => ⟨fun hi => absurd hi (hnew k h1 h2).2,
+        fun _ => by rw [(hnew k h1 h2).1, dispN_chr P _ 32 hk hw]⟩)
       (by simp) (fun k _ _ => by
         constructor
         · intro hc; cases hc
         · intro hc; exact absurd hc (not_wide_glyph P 32 f (by rw [hP.sp]; omega)))
       (not_wide_glyph P 32 f (by rw [hP.sp]; omega))
-      (left_safe P H W r old new mk col t s hok hinv h 32 hk hw)
-      (fun b' hb' => by
+      (left_safe P H W r old new mk free col t s hok hinv h 32 hk hw)
+      (fun b' hb' => Or.inl (by
         rw [(hnew b' (by omega) (by omega)).1]
-        simp [isWide, hk, hP.sp])
+        simp [isWide, hk, hP.sp]))
       { cur := (r, col + rep), face := some f } (Or.inl (by rw [e4])) (fun f' hf' => by simp at hf'; rw [e5, p4, hf'])
     have := ih _ i2
     simp only [execAll_append]
@@ -466,20 +499,20 @@ theorem paintRow_correct (P : Params) (hP : ParamsOk P) (H W r : Nat) (hr : r < 
       have hq : q = paintRow P old new mk W r (col + 1) { cur := (r, col + 1), face := some f } := by
         simp only [q, hw1]
       simp only [hw1] at ih
-      obtain ⟨i2, ign2⟩ := over_step P H W r old new mk col t s hok hinv (col + 1) (fun _ => .glyph ch f)
+      obtain ⟨i2, ign2⟩ := over_step P H W r old new mk free col t s hok hinv (col + 1) (fun _ => .glyph ch f)
         (by omega) (by omega) (exec P (execAll P s pre) (.char ch)) e1
         e2
         (fun k h1 h2 => by
           have : k = col := by omega
           subst this
-          exact ⟨hlive, by rw [dispN_chr P _ ch hk hw]⟩)
+          exact ⟨fun hi => absurd hi hlive, fun _ => by rw [dispN_chr P _ ch hk hw]⟩)
         (by simp) (fun k _ _ => by omega)
         (not_wide_glyph P ch f (by omega))
-        (left_safe P H W r old new mk col t s hok hinv h ch hk hw)
-        (fun b' hb' => by
+        (left_safe P H W r old new mk free col t s hok hinv h ch hk hw)
+        (fun b' hb' => Or.inl (by
           have : b' = col := by omega
           subst this
-          simp [isWide, hk]; omega)
+          simp [isWide, hk]; omega))
         { cur := (r, col + 1), face := some f } (Or.inl (by rw [e4])) (fun f' hf' => by simp at hf'; rw [e5, p4, hf'])
       have := ih _ i2
       simp only [execAll_append, execAll_cons, execAll_nil, hq]
@@ -492,17 +525,26 @@ theorem paintRow_correct (P : Params) (hP : ParamsOk P) (H W r : Nat) (hr : r < 
         simp only [q, hw2]
       simp only [hw2] at ih
       have hwide : isWide P (new col) = true := by simp [isWide, hk, hw2]
-      obtain ⟨w1, ⟨chn, w2, w3⟩, w4⟩ := hok.wide col h hwide hlive
-      obtain ⟨i2, ign2⟩ := over_step P H W r old new mk col t s hok hinv (col + 2) (wideVal col (.glyph ch f))
+      have hnext : col + 1 < W ∧ ((mk (col + 1) = .ignored → free (col + 1)) ∧
+          (¬ free (col + 1) → SCell.cont = dispN P (new (col + 1)))) ∧
+          (isWide P (new (col + 1)) = false ∨ free (col + 1)) := by
+        by_cases hfr : free col
+        · obtain ⟨w1, wf1⟩ := hok.fwide col h hfr hwide
+          exact ⟨w1, ⟨fun _ => wf1, fun nf => absurd wf1 nf⟩, Or.inr wf1⟩
+        · obtain ⟨w1, ⟨chn, w2, w3⟩, w4, _⟩ := hok.wide col h hwide hlive hfr
+          exact ⟨w1, ⟨fun hi => absurd hi w4, fun _ => by rw [dispN_nul P _ chn w2 w3]⟩,
+            Or.inl (by simp [isWide, w2, w3])⟩
+      obtain ⟨w1, wv, wn⟩ := hnext
+      obtain ⟨i2, ign2⟩ := over_step P H W r old new mk free col t s hok hinv (col + 2) (wideVal col (.glyph ch f))
         (by omega) (by omega) (exec P (execAll P s pre) (.char ch)) e1
         e2
         (fun k h1 h2 => by
           by_cases hkc : k = col
           · subst hkc
-            exact ⟨hlive, by simp only [wideVal, if_true]; rw [dispN_chr P _ ch hk hw]⟩
+            exact ⟨fun hi => absurd hi hlive, fun _ => by simp only [wideVal, if_true]; rw [dispN_chr P _ ch hk hw]⟩
           · have : k = col + 1 := by omega
             subst this
-            exact ⟨w4, by simp [wideVal, dispN_nul P _ chn w2 w3]⟩)
+            exact ⟨wv.1, fun nf => by simp only [wideVal]; simp; exact wv.2 nf⟩)
         (by simp [wideVal])
         (fun k h1 h2 => by
           have : k = col := by omega
@@ -517,11 +559,11 @@ theorem paintRow_correct (P : Params) (hP : ParamsOk P) (H W r : Nat) (hr : r < 
           simp only [wideVal]
           rintro ⟨c1, f1, he, _⟩
           simp at he)
-        (left_safe P H W r old new mk col t s hok hinv h ch hk hw)
+        (left_safe P H W r old new mk free col t s hok hinv h ch hk hw)
         (fun b' hb' => by
           have : b' = col + 1 := by omega
           subst this
-          simp [isWide, w2, w3])
+          exact wn)
         { cur := (r, col + 2), face := some f } (Or.inl (by rw [e4])) (fun f' hf' => by simp at hf'; rw [e5, p4, hf'])
       have := ih _ i2
       simp only [execAll_append, execAll_cons, execAll_nil, hq]
@@ -532,8 +574,8 @@ theorem paintRow_correct (P : Params) (hP : ParamsOk P) (H W r : Nat) (hr : r < 
     exact not_skip_live hskip this
   | case7 col t h =>
     simp only [execAll_nil]
-    exact ⟨hinv.wf, hinv.cur, hinv.face, fun k hk hm => hinv.done k (by omega) hk hm, fun _ _ => rfl, rfl,
-      fun _ _ _ _ => rfl⟩
+    exact ⟨hinv.wf, hinv.cur, hinv.face, fun k hk hm hfr => hinv.done k (by omega) hk hm hfr, fun _ _ => rfl, rfl,
+      fun _ _ _ _ _ => rfl⟩
 
 /-! ### all rows of the second pass -/
 
@@ -545,24 +587,24 @@ def pass2Step (P : Params) (old new : Surface) (mk : Nat → Nat → Mark) (W : 
 theorem pass2_eq (P : Params) (old new : Surface) (mk : Nat → Nat → Mark) (H W : Nat) :
     pass2 P old new mk H W = ((List.range H).foldl (pass2Step P old new mk W) ([], Tr.init)).1 := rfl
 
-structure Pass2Inv (P : Params) (H W : Nat) (old new : Surface) (mk : Nat → Nat → Mark) (n : Nat) (t : Tr)
-    (s sn : Screen) : Prop where
+structure Pass2Inv (P : Params) (H W : Nat) (old new : Surface) (mk : Nat → Nat → Mark)
+    (free : Nat → Nat → Prop) (n : Nat) (t : Tr) (s sn : Screen) : Prop where
   wf : WF P sn
   cur : t.cur = sn.cur ∨ ¬ (t.cur.1 < H ∧ t.cur.2 < W)
   face : ∀ f, t.face = some f → sn.face = f
   place : sn.place = s.place
-  done : ∀ r k, r < n → k < W → mk r k ≠ .ignored → sn.grid r k = dispN P (new r k)
+  done : ∀ r k, r < n → k < W → mk r k ≠ .ignored → ¬ free r k → sn.grid r k = dispN P (new r k)
   rest : ∀ r, n ≤ r → sn.grid r = s.grid r
-  ign : ∀ r k, r < n → mk r k = .ignored → s.grid r k ≠ .cont → ¬ WideGlyph P (s.grid r k) →
+  ign : ∀ r k, r < n → mk r k = .ignored → ¬ free r k → s.grid r k ≠ .cont → ¬ WideGlyph P (s.grid r k) →
     sn.grid r k = s.grid r k
 
 theorem pass2_prefix (P : Params) (hP : ParamsOk P) (H W : Nat) (hsz : H ≤ 123456 ∨ W ≤ 654123)
-    (old new : Surface) (mk : Nat → Nat → Mark)
-    (hok : ∀ r, r < H → RowOk P W (new r) (mk r))
+    (old new : Surface) (mk : Nat → Nat → Mark) (free : Nat → Nat → Prop)
+    (hok : ∀ r, r < H → RowOk P W (new r) (mk r) (free r))
     (s : Screen) (hwf : WF P s)
     (hold : ∀ r k, r < H → k < W → mk r k = .empty → s.grid r k = dispN P (old r k))
     (n : Nat) (hn : n ≤ H) :
-    Pass2Inv P H W old new mk n ((List.range n).foldl (pass2Step P old new mk W) ([], Tr.init)).2 s
+    Pass2Inv P H W old new mk free n ((List.range n).foldl (pass2Step P old new mk W) ([], Tr.init)).2 s
       (execAll P s ((List.range n).foldl (pass2Step P old new mk W) ([], Tr.init)).1) := by
   induction n with
   | zero =>
@@ -579,24 +621,24 @@ theorem pass2_prefix (P : Params) (hP : ParamsOk P) (H W : Nat) (hsz : H ≤ 123
     generalize (List.range n).foldl (pass2Step P old new mk W) ([], Tr.init) = acc at J ⊢
     simp only [pass2Step, execAll_append]
     generalize hsn : execAll P s acc.1 = sn at J ⊢
-    have hrow : RowInv P H W n (old n) (new n) (mk n) 0 acc.2 sn := by
+    have hrow : RowInv P H W n (old n) (new n) (mk n) (free n) 0 acc.2 sn := by
       refine ⟨J.wf, J.cur, J.face, ?_, ?_, ?_⟩
       · intro k hk; omega
       · intro k _ hkW hm; rw [J.rest n (by omega)]; exact hold n k (by omega) hkW hm
       · intro hW hm; left; rw [J.rest n (by omega)]; exact hold n 0 (by omega) hW hm
-    have D := paintRow_correct P hP H W n (by omega) (old n) (new n) (mk n) (hok n (by omega)) 0 acc.2 sn hrow
+    have D := paintRow_correct P hP H W n (by omega) (old n) (new n) (mk n) (free n) (hok n (by omega)) 0 acc.2 sn hrow
     refine ⟨D.wf, D.cur, D.face, by rw [D.place, J.place], ?_, ?_, ?_⟩
-    · intro r k hr hk hm
+    · intro r k hr hk hm hfr
       by_cases h : r = n
-      · subst h; exact D.done k hk hm
-      · rw [D.other r h]; exact J.done r k (by omega) hk hm
+      · subst h; exact D.done k hk hm hfr
+      · rw [D.other r h]; exact J.done r k (by omega) hk hm hfr
     · intro r hr
       rw [D.other r (by omega)]; exact J.rest r (by omega)
-    · intro r k hr hm h1 h2
+    · intro r k hr hm hfr h1 h2
       by_cases h : r = n
       · subst h
         have e := J.rest r (by omega)
-        rw [D.ign k hm (by rw [e]; exact h1) (by rw [e]; exact h2), e]
-      · rw [D.other r h]; exact J.ign r k (by omega) hm h1 h2
+        rw [D.ign k hm hfr (by rw [e]; exact h1) (by rw [e]; exact h2), e]
+      · rw [D.other r h]; exact J.ign r k (by omega) hm hfr h1 h2
 
 end SurfProofs.C01
